@@ -229,6 +229,7 @@ func (ex *Exec) resetPath() {
 	ex.steps = 0
 	ex.inputs = map[string]*Term{}
 	ex.symCount = 0
+	ex.ordSeen = nil
 	for k := range ex.ghost {
 		delete(ex.ghost, k)
 	}
